@@ -23,3 +23,31 @@ package qruntime
 //@     invariant [outputs-so-far] dbWrites >= old(dbWrites) && adapterOptions.DepDB != nil
 //@   loop #2
 //@     invariant [inputs-so-far] dbWrites >= old(dbWrites) && adapterOptions.DepDB != nil && adapterOptions.RegisterWatch != nil && primaryInputs != nil
+
+// C09: failed reconciles are retried with growing backoff that resets on success. The per-item
+// backoff state is the entry of the item in adapter.backoffs: clearBackoff forgets it, and one pass of
+// the worker (the closure of runReconcile) has forgotten it whenever the reconcile did not fail -
+// whether or not the controller asked to be called again after an interval.
+//@ func (*Adapter).clearBackoff
+//@   props C09
+//@   requires [adapter] adapter != nil
+//@   modifies adapter.backoffs
+//@   ensures [backoff-forgotten] !in(item, adapter.backoffs)
+//@ func (QJob).String
+//@   inline
+//@ func (QJob).LogLevel
+//@   inline
+//@ func (*Adapter).getBackoffInterval
+//@   props C09
+//@   requires [adapter] adapter != nil && adapter.backoffs != nil
+//@   modifies adapter.backoffs
+//@ func zapSkipIfZero
+//@   inline
+// (assumed: the controller's reconcile/map callbacks leave the adapter's wiring and the item alone)
+//@ func (*Adapter).runReconcile$1
+//@   props C09
+//@   assume [wired] adapter != nil && item != nil && item.queue != nil && adapter.logger != nil && adapter.controller != nil && ctx != nil && adapter.backoffs != nil
+//@   at runOnce #1
+//@     assume_result [wiring-kept] item != nil && item.queue != nil && adapter.logger != nil && adapter.backoffs != nil
+//@   at return #1
+//@     assert [backoff-reset-on-success] (reconcileError == nil || skipped) ==> !in(item.key, adapter.backoffs)
